@@ -188,7 +188,20 @@ func (e *Env) Eval(ex Expr) (Val, error) {
 		if t.Forall {
 			kw = "forall"
 		}
-		return Val{T: fmt.Sprintf("(%s (%s) %s)", kw, strings.Join(binders, " "), body.T), Ty: types.Typ[types.Bool]}, nil
+		bodyT := body.T
+		if len(t.Vars) == 1 {
+			// triggers: every slice-index term over the bound variable (the smallest terms mentioning
+			// it), so that the quantifier is instantiated for any index of the same slice that occurs
+			// in the goal, whatever heap version the goal reads it from
+			if pats := sidxPatterns(bodyT, "q$"+t.Vars[0].Name); len(pats) > 0 && len(pats) <= 4 {
+				var ps []string
+				for _, p := range pats {
+					ps = append(ps, ":pattern ("+p+")")
+				}
+				bodyT = fmt.Sprintf("(! %s %s)", bodyT, strings.Join(ps, " "))
+			}
+		}
+		return Val{T: fmt.Sprintf("(%s (%s) %s)", kw, strings.Join(binders, " "), bodyT), Ty: types.Typ[types.Bool]}, nil
 	case *EComposite:
 		ty, err := u.resolveType(t.Type, e.pkg)
 		if err != nil {
@@ -1134,6 +1147,16 @@ func (u *Unit) ensureSpecFunc(sf *SpecFunc) (*specDef, error) {
 		kw = "define-fun-rec"
 	}
 	d.smt = fmt.Sprintf("(%s %s (%s) %s %s)", kw, name, strings.Join(all, " "), u.sortOf(resTy), body.T)
+	if u.opaque[sf.Name] {
+		// opt opaque: the definition is hidden in this unit (only lemmas speak about the function);
+		// a proof that does not need the unfolding is faster and more stable without it
+		var sorts []string
+		for _, c := range comps {
+			sorts = append(sorts, u.heapSorts[c])
+		}
+		sorts = append(sorts, paramSorts...)
+		d.smt = fmt.Sprintf("(declare-fun %s (%s) %s)", name, strings.Join(sorts, " "), u.sortOf(resTy))
+	}
 	u.specDefs[key] = d
 	u.specOrder = append(u.specOrder, key)
 	return d, nil
@@ -1233,4 +1256,44 @@ func (u *Unit) resolveType(te *TypeExpr, pkg *types.Package) (types.Type, error)
 		return nil, fmt.Errorf("unknown type %s", te)
 	}
 	return nil, fmt.Errorf("bad type expression")
+}
+
+// sidxPatterns finds the distinct terms (sidx T v) in an SMT term where v is the given bound variable
+// and T mentions no quantified variable (q$...).
+func sidxPatterns(term, v string) []string {
+	var out []string
+	seen := map[string]bool{}
+	for i := 0; i+6 < len(term); i++ {
+		if !strings.HasPrefix(term[i:], "(sidx ") {
+			continue
+		}
+		depth := 0
+		j := i
+		for ; j < len(term); j++ {
+			if term[j] == '(' {
+				depth++
+			} else if term[j] == ')' {
+				depth--
+				if depth == 0 {
+					break
+				}
+			}
+		}
+		if j >= len(term) {
+			break
+		}
+		t := term[i : j+1]
+		if !strings.HasSuffix(t, " "+v+")") {
+			continue
+		}
+		inner := t[len("(sidx ") : len(t)-len(" "+v+")")]
+		if strings.Contains(inner, "q$") || strings.Contains(inner, "(forall") || strings.Contains(inner, "(exists") {
+			continue
+		}
+		if !seen[t] {
+			seen[t] = true
+			out = append(out, t)
+		}
+	}
+	return out
 }
